@@ -11,6 +11,8 @@ NOTE = ("Trusted base: libsodium via nacl.bindings and hashlib (shared by oracle
 CLAIMED = {
  'C16': dict(section='3.1', technique='deterministic simulation: seeded validator-clock fault schedules (skew, drift, fractional, step between reads, freeze) over time-lock validations, oracle on recorded clock reads',
    text='Seeded search over simulated validator clocks and boundary-stratified validations of the four raw time instructions and the three time-lock builders; every clock read is a recorded event and the oracle judges each verdict from the recorded reads. Exploration is the right level: the property depends on the clock relation at each read, which only a controlled clock can place on every boundary.'),
+ 'C19': dict(section='3.6', technique='deterministic simulation: seeded histories of registry / run / compile calls in one forked process per history, with raising and re-entrant callbacks injected mid-run; set/dict reference model compared through behavioural probes after every call',
+   text='Seeded search over call histories (bounded-exhaustive prefix of length <= 3 over a 14-op core alphabet, then random to 30/60 ops) on process-global registries, one OS process per history; callbacks fail or re-enter the registry API while a run is in flight. After every call a probe battery (which plugins/contracts/aliases a fresh run or compile actually uses; a registry-independent battery of compiles and runs) is compared with a set/dict model. Exploration is the right level: the property quantifies over histories, which the simulator generates, shrinks and replays.'),
 }
 NA = {
  'C01': 'verdict is a function of (script list, cache, limits) computed in one synchronous call; no clock, schedule, fault or history to simulate (its never-raises clause is only carried as an auxiliary probe)',
